@@ -155,7 +155,9 @@ def compare_final(ctx, spec, env, label, witness):
         if ni == ns:
             mech = OPT_MEMORY_MECH
             ctx["opt_memory_files"] = {h[5:] for h in removed_i if h.startswith("file:")}
-        elif only_optional_products_differ(gi, gs):
+        elif any(h not in gs for h in only_optional_products_differ(gi, gs)):
+            # (at least one step exists only in the incremental graph, below an optional step:
+            # without such a keeper, an optional step that stays done is a stale need, not memory)
             # A step that an optional step defined in an earlier run is still attached, consumes
             # the optional step's output and thereby keeps it needed: a stable state that a
             # from-scratch build (where the optional step never runs) does not have.
